@@ -202,6 +202,43 @@ def runAll (fx : Fixes) (L : Learner) : State → List Arg → List Json × List
             ("kw", Json.bool st'.hasKw), ("method", ofOpt ofNat st'.method)] :: rs, tr :: ts)
     | .error e => ([obj [("err", Json.str (errName e))]], [tr])
 
+def viewToJson (v : BatchView) : Json :=
+  obj [("A", ofList valToJson v.A), ("P", ofList valToJson v.P), ("keys", ofList Json.str v.keys), ("cols", ofList (ofList valToJson) v.cols)]
+
+/-- per call: do the hypotheses of format_roundtrip_single / format_roundtrip_batch hold, and does the model deliver
+what `wantSingle` / `wantBatch` demand?  (compared by value) -/
+def checkSpec (fx : Fixes) (sp : Spec) (pol : Policy) : State → List Arg → Bool × Bool × List Json
+  | _, [] => (true, true, [])
+  | st, a :: as =>
+    let (st1, sarg) := prepare fx st a
+    let res := predictCore fx (scripted sp pol) st1 sarg
+    let (hyp, ok, want) : Bool × Bool × Json :=
+      match sarg with
+      | .single c acts =>
+        let h := st1.layout.isSome || firstRowOK fx sp (pol c acts) acts
+        let w := wantSingle sp st1.rng (pol c acts) acts
+        let ok := match res, w with
+          | .ok (r, _), .ok (r', _) => (resultToJson r).compress == (resultToJson r').compress
+          | .error e, .error e' => e == e'
+          | _, _ => false
+        (h, ok, match w with | .ok (r', _) => resultToJson r' | .error e => Json.str (errName e))
+      | .batch cs rows =>
+        let R := rowsOf pol cs rows
+        let h := Unambiguous fx sp st1 R && cs.length == rows.length && !rows.isEmpty
+        let w := wantBatch sp st1.rng R
+        let ok := match res, w with
+          | .ok (r, _), .ok (v, _) => (match r.view with | some v' => (viewToJson v').compress == (viewToJson v).compress | none => false)
+          | .error e, .error e' => e == e'
+          | _, _ => false
+        (h, ok, match w with | .ok (v, _) => viewToJson v | .error e => Json.str (errName e))
+    -- a call outside the hypotheses may leave a state that violates the invariant `Inv`: later calls are not claimed
+    if !hyp then (false, true, [obj [("hyp", Json.bool false), ("ok", Json.bool ok), ("want", want)]])
+    else match res with
+    | .ok (_, st') =>
+      let (hs, oks, ds) := checkSpec fx sp pol st' as
+      (hs, ok && oks, obj [("hyp", Json.bool hyp), ("ok", Json.bool ok), ("want", want)] :: ds)
+    | .error _ => (true, ok, [obj [("hyp", Json.bool hyp), ("ok", Json.bool ok), ("want", want)]])
+
 def handle (req : Json) : Except String Json := do
   let fxj ← field req "fx"
   let fx : Fixes := ⟨← bool (← field fxj "short"), ← bool (← field fxj "batch"), ← bool (← field fxj "col"), ← bool (← field fxj "rowdict")⟩
@@ -239,6 +276,9 @@ def handle (req : Json) : Except String Json := do
     let L := scripted sp pol
     let (rs, ts) := runAll fx L st calls
     out := out ++ [("scripted", Json.arr rs.toArray), ("scripted_trace", Json.arr ts.toArray)]
+    -- (C) the theorems' hypotheses and conclusion, evaluated call by call on the very definitions they are about
+    let (hyp, holds, detail) := checkSpec fx sp pol st calls
+    out := out ++ [("hyp", Json.bool hyp), ("holds", Json.bool holds), ("spec_detail", Json.arr detail.toArray)]
     -- what the scripted learner answers to the calls as the real learner received them (value comparison of the renderings)
     match req.getObjVal? "recorded" with
     | .ok rj =>
